@@ -38,6 +38,7 @@ pub fn scripts(thorough: bool) -> Vec<Script> {
         Script { name: "96GiB-448 + W30^64 + 01 (last-piece hash)", zero_prefix: (96u64 << 30) - 448, bytes: last },
         Script { name: "192GiB-448 + W30^64 (exactly the limit)", zero_prefix: MAX - 448, bytes: corpus::repeat(&corpus::W[30], 64) },
         Script { name: "border 192*2^5 crossing", zero_prefix: (192u64 << 5) - 230, bytes: corpus::repeat(&corpus::W[5], 66) },
+        Script { name: "large but piece-poor: 192*2^6+5 zeros + hello", zero_prefix: (192u64 << 6) + 5, bytes: b"Hello, World!\n".to_vec() },
     ];
     if thorough {
         v.push(Script { name: "192GiB-447 + W30^64 (one over the limit)", zero_prefix: MAX - 447, bytes: corpus::repeat(&corpus::W[30], 64) });
